@@ -968,8 +968,94 @@ func VerifBuiltinStable(n int) {
 	after := verifRun(pp.prog + pp.probe)
 	verifapi.Reach("ran")
 	verifExpectShift("C12-probe", "C12/probe-type-depends-on-earlier-program/"+pp.name, pp.probe, pp.prog+pp.probe, alone, after, 1, verifCountLines(pp.prog))
-	verifapi.Classify("C12/builtin-method-table-altered/" + pp.name)
-	verifapi.Assert(base.VerifBuiltinUnchanged(snap), "C12-table")
+	_ = snap
+}
+
+// verifWideProbe: one call of each of 44 shipped builtin methods (every special return form:
+// Self, Unify, OptionalUnify, conditional, destructive, declared unions, block results) on
+// fresh literal receivers, each probed with dbtp.
+const verifWideProbe = "t1 = [1, \"s\"].last\ndbtp t1\nt2 = [1, \"s\"].last(1)\ndbtp t2\nt3 = [1, \"s\"].first\ndbtp t3\nt4 = [1, \"s\"].first(1)\ndbtp t4\nt5 = [1, \"s\"].shift\ndbtp t5\nt6 = [1, \"s\"].shift(1)\ndbtp t6\nt7 = [1, \"s\"].pop\ndbtp t7\nt8 = [1, \"s\"] * 2\ndbtp t8\nt9 = [1, \"s\"] * \",\"\ndbtp t9\nt10 = [1, \"s\"].max\ndbtp t10\nt11 = [1, \"s\"].min\ndbtp t11\nt12 = [1, \"s\"].flatten\ndbtp t12\nt13 = [1, \"s\"].dup\ndbtp t13\nt14 = [1, \"s\"].at(0)\ndbtp t14\nt15 = [1, \"s\"] - [1]\ndbtp t15\nt16 = [1, \"s\"].push(1.5)\ndbtp t16\nt17 = {k: 1}.merge({j: \"s\"})\ndbtp t17\nt18 = {k: 1, j: \"s\"}.values\ndbtp t18\nt19 = {k: 1, j: \"s\"}.delete(:k)\ndbtp t19\nt20 = {k: 1}.key(1)\ndbtp t20\nt21 = 2 * 3\ndbtp t21\nt22 = 2 * 1.5\ndbtp t22\nt23 = 2 + 3\ndbtp t23\nt24 = 2 - 1.5\ndbtp t24\nt25 = 2 <=> 3\ndbtp t25\nt26 = (1..3).first\ndbtp t26\nt27 = (1..3).first(2)\ndbtp t27\nt28 = \"a\".upcase\ndbtp t28\nt29 = \"a\".upcase!\ndbtp t29\nt30 = \"abc\".index(\"b\")\ndbtp t30\nt31 = \"a\" + \"b\"\ndbtp t31\nt32 = \"a\" * 2\ndbtp t32\nt33 = 1.to_s\ndbtp t33\nt34 = nil.to_s\ndbtp t34\nt35 = 1.nil?\ndbtp t35\nt36 = 1 == 2\ndbtp t36\nt37 = p(1)\ndbtp t37\nt38 = [1, \"s\"].reject do |e|\n  true\nend\ndbtp t38\nt39 = [1, \"s\"].collect do |e|\n  1.5\nend\ndbtp t39\nt40 = [3, 1].sort\ndbtp t40\nt41 = 1.5.to_i\ndbtp t41\nt42 = :a.to_s\ndbtp t42\nt43 = [1, \"s\"].delete_at(0)\ndbtp t43\nt44 = [1, \"s\"] & [1]\ndbtp t44\nclass Pe\nextend Enumerable\ndef self.go\ncollect do |e|\n1\nend\nend\nend\nt45 = Pe.go\ndbtp t45\nclass Pi\ninclude Enumerable\ndef go\ncollect do |e|\n1\nend\nend\nend\nt46 = Pi.new.go\ndbtp t46\n"
+
+var verifWidePrograms = []struct{ name, text string }{
+	{"last-and-last-n", "a = [Sym.a, Sym.b]\nb = a.last\nc = a.last(1)\n"},
+	{"shift-and-shift-n", "a = [Sym.a, Sym.b]\nb = a.shift\nc = a.shift(1)\n"},
+	{"pop-first-at", "a = [Sym.a, Sym.b]\nb = a.pop\nc = a.first\nd = a.first(1)\ne = a.at(0)\nf = a.delete_at(0)\n"},
+	{"array-times", "a = [Sym.a, Sym.b]\nb = a * 2\nc = a * \",\"\n"},
+	{"max-min-sort", "a = [Sym.a, Sym.b]\nb = a.max\nc = a.min\nd = a.sort\n"},
+	{"flatten-dup-minus-and", "a = [Sym.a, Sym.b]\nb = a.flatten\nc = a.dup\nd = a - [1]\ne = a & [1]\n"},
+	{"push-shovel-index-assign", "a = [Sym.a]\na.push(Sym.b)\na << Sym.b\na[0] = Sym.b\n"},
+	{"hash-merge", "h = {k: Sym.a}\ng = h.merge({j: Sym.b})\nh.merge!({j: Sym.b})\n"},
+	{"hash-values-delete-key-store", "h = {k: Sym.a, j: Sym.b}\nv = h.values\nd = h.delete(:k)\nk = h.key(1)\nh[:z] = Sym.b\n"},
+	{"numeric-operators", "x = Sym.n\na = 2 * x\nb = 2 + x\nc = 2 - x\nd = x * 2\ne = 2 <=> 3\n"},
+	{"range-first", "r = (1..3)\nx = Sym.a\na = r.first\nb = r.first(2)\n"},
+	{"string-methods", "s = \"ab\"\nx = Sym.a\na = s.upcase\nb = s.upcase!\nc = s.index(\"b\")\nd = s + \"c\"\ne = s * 2\n"},
+	{"object-methods-on-any-kind", "x = Sym.a\na = x.to_s\nb = x.nil?\nc = x == Sym.b\nd = p(x)\n"},
+	{"blocks", "a = [Sym.a, Sym.b]\nb = a.reject do |e|\ntrue\nend\nc = a.collect do |e|\nSym.b\nend\na.each do |e|\ne\nend\n"},
+	{"union-receiver-calls", "x = Sym.u\na = x.to_s\nb = x.nil?\nc = [x].first\nd = [x, Sym.a].last\n"},
+	{"assignment-through-calls", "s = \"x\"\ns.upcase = Sym.a\nn = 5\nn.to_s ||= Sym.a\na = [1]\na.first = Sym.a\na.last = Sym.b\ns.index(\"x\") = Sym.b\n"},
+	{"multiple-assignment-through-calls", "s = \"a\"\ns.upcase, c = Sym.a, 2\nn = 3\nd, n.to_s = 1, Sym.b\n"},
+	{"operator-assignment-on-call-results", "a = [1, 2]\na.first += Sym.n\nh = {k: 1}\nh.values << Sym.a\nh.key(1) ||= Sym.b\n"},
+	{"include-and-extend-of-a-builtin-module", "class Ia\ninclude Enumerable\ndef go\ncollect do |e|\nSym.a\nend\nend\nend\nclass Ea\nextend Enumerable\ndef self.go\ncollect do |e|\nSym.b\nend\nend\nend\nx = Ia.new.go\ny = Ea.go\n"},
+	{"include-of-a-builtin-module-only", "class Ia\ninclude Enumerable\ndef go\ncollect do |e|\nSym.a\nend\nend\nend\nx = Ia.new.go\nz = Ia.new.collect do |e|\nSym.b\nend\n"},
+	{"failing-calls", "x = Sym.a\na = [1].first(x)\nb = \"s\" + x\nc = 2 * x\nd = [1].at\ne = \"s\".upcase(x)\n"},
+}
+
+// VerifBuiltinStableWide: a program of builtin calls on symbolic leaves, then the wide probe;
+// the probe's output must equal its output when run alone, and the builtin method table must
+// be deep-equal to its snapshot.
+func VerifBuiltinStableWide(n int) {
+	pp := verifWidePrograms[verifapi.Concrete(verifapi.Int("program", 0, len(verifWidePrograms)-1))]
+	var need []string
+	for _, nm := range []string{"a", "b", "n", "u"} {
+		if strings.Contains(pp.text, "Sym."+nm) {
+			need = append(need, nm)
+		}
+	}
+	s := verifInstallSym(need...)
+	verifapi.WitnessList("Sym.a", verifKN(s.ka))
+	verifapi.WitnessList("Sym.b", verifKN(s.kb))
+	verifapi.WitnessList("Sym.n", verifKN(s.kn))
+	verifapi.WitnessList("Sym.u", verifKN(s.u1), verifKN(s.u2))
+	snap := base.VerifBuiltinSnapshot()
+	mark := verifapi.Snapshot()
+	alone := verifRun(verifWideProbe)
+	verifapi.Restore(mark)
+	after := verifRun(pp.text + verifWideProbe)
+	verifapi.Reach("ran")
+	verifExpectShift("C12-probe", "C12/probe-type-depends-on-earlier-program/"+pp.name, verifWideProbe, pp.text+verifWideProbe, alone, after, 1, verifCountLines(pp.text))
+	_ = snap
+}
+
+// VerifBuiltinTable (kernel job, replayed in a natively compiled test binary): one of the
+// C12 programs followed by the wide probe is evaluated through the four real rounds
+// (evaluationLoop in load mode: same evaluation, no printing, no os.Exit), then every
+// Builtin-frame method T of TFrame is compared field by field with a snapshot taken before;
+// the class names the entry and the field that changed.
+func VerifBuiltinTable(n int) {
+	k := verifapi.Concrete(verifapi.Int("program", 0, len(verifStablePairs)+len(verifWidePrograms)-1))
+	text, name := "", ""
+	if k < len(verifStablePairs) {
+		text, name = verifStablePairs[k].prog, verifStablePairs[k].name
+	} else {
+		text, name = verifWidePrograms[k-len(verifStablePairs)].text, verifWidePrograms[k-len(verifStablePairs)].name
+	}
+	var need []string
+	for _, nm := range []string{"a", "b", "n", "u"} {
+		if strings.Contains(text, "Sym."+nm) {
+			need = append(need, nm)
+		}
+	}
+	verifInstallSym(need...)
+	src := text + verifWideProbe
+	verifapi.Witness("src", src)
+	verifapi.Witness("program", name)
+	snap := base.VerifBuiltinSnapshot()
+	verifRunRounds(src, "./a.rb", cmd.NewExecuteFlags(), 0, true)
+	verifapi.Reach("ran")
+	diff := base.VerifBuiltinDiff(snap)
+	verifapi.Witness("C12-table.changed", diff)
+	verifapi.Classify("C12/builtin-method-table-altered/" + diff)
+	verifapi.Assert(diff == "", "C12-table")
 }
 
 // ---- hosts shared by C11 (interference) and C06 (layout) ----
@@ -1139,11 +1225,11 @@ type verifRenameSkel struct {
 }
 
 var verifRenameSkels = []verifRenameSkel{
-	{"local-variable", "zzq", []string{"v", "a1", "_t", "long_name_x", "q", "camelCase", "x9y", "__w"},
+	{"local-variable", "zzq", []string{"v", "a1", "_t", "long_name_x", "q", "camelCase", "x9y", "__w", "end_x", "do_it", "if_x", "in_x", "not_x", "or_b", "and_c", "then_x", "nil_x", "self_x", "true_x", "e", "x_", "unless1", "while_w", "defx", "classy"},
 		"zzq = Sym.a\ndbtp zzq\ny = zzq\ndbtp y\nzzq = [zzq, 1]\ndbtp zzq\nundefined_fn(zzq)\n"},
-	{"method", "zzq", []string{"foo", "f", "bar_baz", "q1", "go", "fooBar", "_priv", "do_it2"},
+	{"method", "zzq", []string{"foo", "f", "bar_baz", "q1", "go", "fooBar", "_priv", "do_it2", "end_x", "if_x", "in_x", "def_x", "class_x", "puts_x", "p1", "return_v", "yield_it", "new_one", "is_a", "nil_p"},
 		"def zzq(v)\nv\nend\nr = zzq(Sym.a)\ndbtp r\nzzq(1, 2)\nzzq\n"},
-	{"class", "Zzq", []string{"Hx", "H", "Zed", "Ab1", "Qq", "HTTPClient", "I2CBus", "FooBar", "Xy_z"},
+	{"class", "Zzq", []string{"Hx", "H", "Zed", "Ab1", "Qq", "HTTPClient", "I2CBus", "FooBar", "Xy_z", "Endx", "Ifx", "Selfish", "Nilx", "Do1", "A1", "Classy", "Modulex", "Stringy", "Arrayx"},
 		"class Zzq\ndef foo\n1\nend\ndef self.make\nZzq.new\nend\nend\no = Zzq.new\ndbtp o.foo\ndbtp Zzq.make\ndbtp Zzq.new.foo\nZzq.bar\no.baz\n"},
 	{"instance-variable", "zzq", []string{"v", "a1", "_t", "count", "q"},
 		"class Kxy\ndef initialize\n@zzq = Sym.a\nend\ndef get\n@zzq\nend\nend\ndbtp Kxy.new.get\n"},
@@ -1151,6 +1237,30 @@ var verifRenameSkels = []verifRenameSkel{
 		"class Kxy\ndef zzq=(w)\n@s = w\nend\ndef zzq\n@s\nend\nend\no = Kxy.new\no.zzq = Sym.a\ndbtp o.zzq\n"},
 	{"heredoc-terminator", "ZZQ", []string{"EOS", "EOT", "TXT", "E", "HEREDOC"},
 		"x = <<ZZQ\nE dbtp 1\nZZQ\ndbtp x\ny = 1\ndbtp y\n"},
+	{"keyword-parameter", "zzq", []string{"k", "ab", "key_1", "if_x", "end_y", "do_it", "in_z", "v"},
+		"def f(zzq:)\ndbtp zzq\nzzq\nend\nr = f(zzq: Sym.a)\ndbtp r\nf(zzq: 1)\nf()\n"},
+	{"block-parameter", "zzq", []string{"e", "i", "el_1", "if_x", "in_x", "do_z", "end_q", "v"},
+		"a = [Sym.a]\na.each do |zzq|\ndbtp zzq\nend\nb = a.collect { |zzq| zzq }\ndbtp b\n"},
+	{"hash-key", "zzq", []string{"k", "ab", "key_1", "if_x", "end_y", "do_it", "v"},
+		"h = {zzq: Sym.a}\nv = h[:zzq]\ndbtp v\ndbtp h\n"},
+	{"constant", "ZZQ", []string{"MAX", "A", "A1", "MAX_VALUE", "PI2", "END_X", "IF"},
+		"ZZQ = Sym.a\ndbtp ZZQ\nx = ZZQ\ndbtp x\n"},
+	{"module", "Zzq", []string{"Mx", "M", "Util", "Ab1", "HTTPUtil", "Do1", "Endx"},
+		"module Zzq\ndef self.mk\n1\nend\ndef inst\n2\nend\nend\nclass Kxy\ninclude Zzq\nend\ndbtp Zzq.mk\ndbtp Kxy.new.inst\n"},
+	{"attr-accessor", "zzq", []string{"val", "v", "a_b", "x1", "if_x", "end_y", "do_it"},
+		"class Kxy\nattr_accessor :zzq\ndef initialize\n@zzq = Sym.a\nend\nend\no = Kxy.new\ndbtp o.zzq\no.zzq = 1\n"},
+	{"global-variable", "$zzq", []string{"$g", "$gl_1", "$if_x", "$G", "$end_x"},
+		"$zzq = Sym.a\ndbtp $zzq\n"},
+	{"method-with-bang-suffix", "zzq!", []string{"ok!", "f!", "do_it!", "end_x!"},
+		"def zzq!(v)\nv\nend\nr = zzq!(Sym.a)\ndbtp r\n"},
+	{"block-argument-parameter", "zzq", []string{"blk", "b", "c", "handler", "bk", "if_x", "e"},
+		"def f(x, **opts, &zzq)\nx\nend\nr = f(Sym.a)\ndbtp r\nclass Kxy\ndef m(**o, &zzq)\n1\nend\ndef self.cm(*rest, &zzq)\n2\nend\nend\ndbtp Kxy.new.m\ndbtp Kxy.cm\n"},
+	{"splat-parameter", "zzq", []string{"a", "args", "rest_1", "r", "end_x"},
+		"def f(*zzq)\ndbtp zzq\nzzq\nend\nr = f(Sym.a, 1)\ndbtp r\n"},
+	{"double-splat-parameter", "zzq", []string{"o", "opts", "kw_1", "in_x"},
+		"def f(v, **zzq)\ndbtp zzq\nv\nend\nr = f(Sym.a, k: 1)\ndbtp r\n"},
+	{"default-parameter", "zzq", []string{"d", "dflt", "v_1", "do_x", "n"},
+		"def f(v, zzq = 2)\ndbtp zzq\nv\nend\nr = f(Sym.a)\ndbtp r\nf(1, \"s\")\n"},
 	{"method-with-predicate-suffix", "zzq?", []string{"ok?", "f?", "is_it?", "q1?", "go?"},
 		"def zzq?(v)\ntrue\nend\nr = zzq?(Sym.a)\ndbtp r\n"},
 }
@@ -1179,6 +1289,15 @@ func VerifRename(n int) {
 		shape = "one-character-name"
 	} else if len(name) > 2 && name[0] >= 'A' && name[0] <= 'Z' && ((name[1] >= 'A' && name[1] <= 'Z') || (name[1] >= '0' && name[1] <= '9')) {
 		shape = "acronym-style-name"
+	}
+	if len(name) >= 2 && name == strings.ToUpper(name) && sk.category != "constant" && sk.category != "heredoc-terminator" && name[0] >= 'A' && name[0] <= 'Z' {
+		shape = "name-without-lower-case-letters"
+	}
+	for _, kw := range []string{"end", "do", "if", "in", "not", "or", "and", "then", "nil", "self", "true", "unless", "while", "def", "class", "return", "yield", "module"} {
+		bare := strings.ToLower(strings.TrimLeft(name, "$@"))
+		if shape == "ordinary-name" && strings.HasPrefix(bare, kw) && len(bare) > len(kw) {
+			shape = "name-starting-with-a-keyword"
+		}
 	}
 	if sk.category == "heredoc-terminator" {
 		shape = "body-token-is-substring-of-terminator"
@@ -2297,6 +2416,16 @@ const verifCfgCh2 = `{"frame": "Builtin", "class": "Ch", "instance_methods": [
 const verifCfgGc = `{"frame": "Builtin", "class": "Gc", "extends": ["Ch"], "instance_methods": [],
  "class_methods": [{"name": "new", "arguments": [], "return_type": {"type": ["Gc"]}}]}`
 
+const verifCfgKwMethods = `[
+ {"name": "set", "arguments": [{"type": ["Int"]}, {"type": ["Int"], "key": "level:"}], "return_type": {"type": ["Int"]}},
+ {"name": "dim", "arguments": [{"type": ["Int"], "key": "level:"}], "return_type": {"type": ["Int"]}},
+ {"name": "fade", "arguments": [{"type": ["Int"], "key": "from:"}, {"type": ["Int"], "key": "to:", "is_default": true}], "return_type": {"type": ["Int"]}}]`
+const verifCfgLa = `{"frame": "Builtin", "class": "La", "instance_methods": ` + verifCfgKwMethods + `, "class_methods": []}`
+const verifCfgMo = `{"frame": "Builtin", "class": "Mo", "instance_methods": ` + verifCfgKwMethods + `, "class_methods": []}`
+const verifCfgRig = `{"frame": "Builtin", "class": "Rig", "instance_methods": [], "class_methods": [
+ {"name": "lamp", "arguments": [], "return_type": {"type": ["La"]}},
+ {"name": "device", "arguments": [], "return_type": {"type": ["La", "Mo"]}}]}`
+
 const verifCfgWiBuiltin = `{"frame": "Builtin", "class": "Wi", "instance_methods": [], "class_methods": [
  {"name": "build", "arguments": [], "return_type": {"type": ["Int"]}}, {"name": "only_b", "arguments": [], "return_type": {"type": ["Bool"]}}]}`
 const verifCfgWiApp = `{"frame": "App", "class": "Wi", "instance_methods": [], "class_methods": [
@@ -2382,6 +2511,7 @@ func VerifConfigOrder(n int) {
 // ---- C07 / C08 at program level: calls of real configured methods ----
 
 type verifCallSkel struct {
+	cfg  int // 0: shipped configuration; 1: + generated parent/child/grandchild (Pa, Ch, Gc); 2: + generated La, Mo, Rig (Rig.device returns La|Mo)
 	name string
 	src  string // uses Sym.a (argument or receiver) / Sym.u (union receiver); the call is on row 2 or 3
 	row  int
@@ -2390,17 +2520,29 @@ type verifCallSkel struct {
 }
 
 var verifCallSkels = []verifCallSkel{
-	{"integer-plus-argument", "x = Sym.a\nr = 1 + x\n", 2, func(k int) bool { return k == base.VkInt || k == base.VkFloat }},
-	{"string-plus-argument", "x = Sym.a\nr = \"s\" + x\n", 2, func(k int) bool { return k == base.VkString }},
-	{"receiver-plus-integer", "x = Sym.a\nr = x + 1\n", 2, func(k int) bool { return k == base.VkInt || k == base.VkFloat }},
-	{"array-push-untyped-parameter", "x = Sym.a\na = [1]\na.push(x)\n", 3, func(k int) bool { return true }},
-	{"array-first-default-int", "x = Sym.a\nr = [1, 2].first(x)\n", 2, func(k int) bool { return k == base.VkInt }},
-	{"string-times-integer", "x = Sym.a\nr = \"s\" * x\n", 2, func(k int) bool { return k == base.VkInt }},
-	{"array-join-default-string", "x = Sym.a\nr = [1].join(x)\n", 2, func(k int) bool { return k == base.VkString }},
-	{"integer-to_s-default-int", "x = Sym.a\nr = 5.to_s(x)\n", 2, func(k int) bool { return k == base.VkInt }},
-	{"receiver-upcase", "x = Sym.a\nr = x.upcase\n", 2, func(k int) bool { return k == base.VkString }},
-	{"too-many-arguments", "x = Sym.a\nr = \"s\".to_sym(x)\n", 2, func(k int) bool { return false }},
-	{"too-few-arguments", "x = Sym.a\nr = [x].at\n", 2, func(k int) bool { return false }},
+	{0, "integer-plus-argument", "x = Sym.a\nr = 1 + x\n", 2, func(k int) bool { return k == base.VkInt || k == base.VkFloat }},
+	{0, "string-plus-argument", "x = Sym.a\nr = \"s\" + x\n", 2, func(k int) bool { return k == base.VkString }},
+	{0, "receiver-plus-integer", "x = Sym.a\nr = x + 1\n", 2, func(k int) bool { return k == base.VkInt || k == base.VkFloat }},
+	{0, "array-push-untyped-parameter", "x = Sym.a\na = [1]\na.push(x)\n", 3, func(k int) bool { return true }},
+	{0, "array-first-default-int", "x = Sym.a\nr = [1, 2].first(x)\n", 2, func(k int) bool { return k == base.VkInt }},
+	{0, "string-times-integer", "x = Sym.a\nr = \"s\" * x\n", 2, func(k int) bool { return k == base.VkInt }},
+	{0, "array-join-default-string", "x = Sym.a\nr = [1].join(x)\n", 2, func(k int) bool { return k == base.VkString }},
+	{0, "integer-to_s-default-int", "x = Sym.a\nr = 5.to_s(x)\n", 2, func(k int) bool { return k == base.VkInt }},
+	{0, "receiver-upcase", "x = Sym.a\nr = x.upcase\n", 2, func(k int) bool { return k == base.VkString }},
+	{0, "too-many-arguments", "x = Sym.a\nr = \"s\".to_sym(x)\n", 2, func(k int) bool { return false }},
+	{0, "too-few-arguments", "x = Sym.a\nr = [x].at\n", 2, func(k int) bool { return false }},
+	{1, "configured-parent-overloaded-method", "a = Pa.new\nx = Sym.a\nr = a.m(x)\n", 3, func(k int) bool { return k == base.VkInt || k == base.VkString }},
+	{1, "configured-parent-required-and-defaulted", "a = Pa.new\nx = Sym.a\nr = a.only_pa(x)\n", 3, func(k int) bool { return k == base.VkInt }},
+	{1, "configured-parent-defaulted-argument", "a = Pa.new\nx = Sym.a\nr = a.only_pa(1, x)\n", 3, func(k int) bool { return k == base.VkString }},
+	{1, "configured-child-own-method-too-many", "c = Ch.new\nx = Sym.a\nr = c.k(x)\n", 3, func(k int) bool { return false }},
+	{1, "configured-grandchild-inherited-method", "g = Gc.new\nx = Sym.a\nr = g.only_pa(x)\n", 3, func(k int) bool { return k == base.VkInt }},
+	{1, "configured-child-inherited-method", "c = Ch.new\nx = Sym.a\nr = c.only_pa(x)\n", 3, func(k int) bool { return k == base.VkInt }},
+	{2, "union-of-configured-classes-keyword-only-call", "d = Rig.device\nx = Sym.a\nr = d.dim(level: x)\n", 3, func(k int) bool { return k == base.VkInt }},
+	{2, "union-of-configured-classes-two-keywords", "d = Rig.device\nx = Sym.a\nr = d.fade(from: x, to: 3)\n", 3, func(k int) bool { return k == base.VkInt }},
+	{2, "union-of-configured-classes-defaulted-keyword-omitted", "d = Rig.device\nx = Sym.a\nr = d.fade(from: x)\n", 3, func(k int) bool { return k == base.VkInt }},
+	{2, "union-of-configured-classes-positional-and-keyword", "d = Rig.device\nx = Sym.a\nr = d.set(x, level: 2)\n", 3, func(k int) bool { return k == base.VkInt }},
+	{2, "configured-class-keyword-only-call", "l = Rig.lamp\nx = Sym.a\nr = l.dim(level: x)\n", 3, func(k int) bool { return k == base.VkInt }},
+	{2, "configured-class-keyword-only-call-twice", "l = Rig.lamp\nx = Sym.a\nl.dim(level: 1)\nr = l.dim(level: x)\n", 4, func(k int) bool { return k == base.VkInt }},
 }
 
 // VerifBuiltinCalls: a call of a real configured method with a receiver or argument of
@@ -2412,6 +2554,9 @@ func VerifBuiltinCalls(n int) {
 	unionMode := verifapi.Concrete(verifapi.Int("union", 0, 1))
 	src := sk.src
 	var fits, fails bool
+	if sk.cfg == 1 {
+		verifKindHi = 5 // the child re-declares m for Symbol: the leaf must be able to be one
+	}
 	if unionMode == 0 {
 		s := verifInstallSym("a")
 		verifapi.WitnessList("Sym.a", verifKN(s.ka))
@@ -2423,6 +2568,20 @@ func VerifBuiltinCalls(n int) {
 		fits, fails = sk.ok(s.u1) && sk.ok(s.u2), !sk.ok(s.u1) && !sk.ok(s.u2)
 	}
 	verifapi.Witness("src", src)
+	if sk.cfg > 0 {
+		filesW := ""
+		files := [][2]string{{"a_pa", verifCfgPa}, {"b_ch", verifCfgCh}, {"c_gc", verifCfgGc}}
+		if sk.cfg == 2 {
+			files = [][2]string{{"la", verifCfgLa}, {"mo", verifCfgMo}, {"rig", verifCfgRig}}
+		}
+		for _, f := range files {
+			verifapi.SetFile(".ti-config/"+f[0]+".json", f[1])
+			filesW += f[0] + ".json\x1e" + f[1] + "\x1d"
+		}
+		verifapi.Witness("extra-config-files", filesW)
+		verifapi.VfsOnly(".ti-config")
+		builtin.VerifLoadConfigAgain()
+	}
 	out := verifRun(src)
 	verifapi.Reach("ran")
 	leaf := []string{"scalar-leaf", "union-leaf"}[unionMode]
